@@ -254,7 +254,12 @@ def c07():
     n = _run_traces(chk, behs, "tlc-simulated-filter-probes", filter_probe=fprobe)
     rng = random.Random(chk.seed + 7)
     rb = [random_behaviour(rng, max_jobs=4, max_ops=4, max_m=3) for _ in range(_n(chk, 80, 800))]
-    _run_traces(chk, rb, "random-large-filter-probes", start_tid=n + 1, filter_probe=fprobe)
+    n += _run_traces(chk, rb, "random-large-filter-probes", start_tid=n + 1, filter_probe=fprobe)
+    # several episodes on one dispatcher: a filter must not remember anything of the episode before the reset
+    from .ochecks import three_episodes
+    eps = [three_episodes(b, rng) for b in rb[: _n(chk, 30, 150)]]
+    _run_traces(chk, eps, "three-episodes-filter-probes", start_tid=n + 1,
+                filter_probe=lambda r: list(singles) + r.sample(pairs, 2))
     return chk.finish(
         "TLC: every composition of <= 2 (thorough: 3) filters on every non-empty sub-list of the ready "
         "operations in every reachable state returns a non-empty duplicate-free sub-list; no deadlock "
